@@ -6,6 +6,8 @@ func init() {
 		Technique:   "SSA case-relation extraction (operator polarity), provenance/role dataflow on the container-selection and log-request code",
 		Explanation: "Decides structural clauses of container selection for all inventories and selectors: operator meaning and polarity of the container matcher, missing-label-as-empty, full anchoring of label regexps, origin pairing of log request and record labels, since/until roles and truncation, request options, label derivation.",
 		Decided: []string{
+			"PV-PAIR origin: ParseLog keeps its resource and streamIter.Next stamps every record it fills with i.resource unconditionally",
+			"PV-WHOLE matcher loop: every selector matcher is passed to the storage or becomes a prefilter",
 			"CH-POL: dockerlog.match implements = != =~ !~ as eq / not eq / re / not re over (label value, matcher value), default false; Capabilities advertises exactly those",
 			"PV-OKGATE: containerLabels.Match applies every matcher to labels[matcher.Label] with a plain lookup (missing label = \"\"), false on first reject, true after all",
 			"PV-API: compileLabelRegex compiles \"^(?:\"+re+\")$\" on every path and is the only writer of LabelMatcher.Re",
